@@ -35,7 +35,9 @@ def corpus():
 
 
 ENGINES = [{"name": "pipe", "gen": gen, "corpus": corpus, "nontrivial": nontrivial, "classify": pipegen.classify, "shards": 12}]
-known_signature = known_signature_for(set())
+from props.e2e_common import e2e_engine
+ENGINES.append(e2e_engine("C15"))   # the same histories against a real pipeline over TCP/HTTP
+known_signature = known_signature_for({"KC"})   # KC: e2e engine, finding C15-4
 LEVEL_TEXT = ("Theorems over all message histories of the state-machine model: the three peer gauges equal the numbers read off the peer table at every "
               "point, every counter equals the number of matching events, counters are monotone, the state metric follows the phase. Kernel-checked, "
               "axiom-free; tied to the real code by reading the rendered Prometheus exposition at random quiescent points of generated histories.")
